@@ -244,7 +244,11 @@ class Message:
         while not unpacker.is_done():
             avps.append(Avp.from_unpacker(unpacker))
 
+        command_flags = header.command_flags
         msg = msg_type(header, avps)
+        # the command classes set their own default flags while being
+        # constructed; a decoded message carries the flags it was received with
+        msg.header.command_flags = command_flags
 
         return msg
 
